@@ -142,6 +142,7 @@ class PairEngine:
         # q -> [(callee qname, 'err' | 'ok', reason)]: result edges of a call that cannot be taken
         self.infeasible = infeasible or {}
         self.cut = {}
+        self._restoring = {}
         self.replace_is_m = replace_is_m
         # order-aware pairing: a B event counts only once M has happened on the path
         self.b_after_m = b_after_m
@@ -246,7 +247,12 @@ class PairEngine:
                     cq = s.rv.raw['def']
                     for cidx, cr in enumerate(self.R.res.get(cq, [])):
                         if self._closure_matches(q, r, al, s, cr):
-                            ev[blk.idx].append(('call', cq, cidx, s.line))
+                            cond = self._error_path_consumer(body, al, s) if self.snapshot_resets else None
+                            if cond is not None and self.closure_restores(cq, cidx):
+                                # `result.map_err(|e| { restore; e })`: runs only when the receiver is a failure
+                                ev[blk.idx].append(('call_if_fail', cq, cidx, s.line, cond))
+                            else:
+                                ev[blk.idx].append(('call', cq, cidx, s.line))
                             if self.snapshot_resets and self._closure_snapshots(cq, cidx):
                                 ev[blk.idx].append(('snap', s.line))
             ev[blk.idx].extend(self.extra_block_events(q, r, body, al, blk))
@@ -388,6 +394,46 @@ class PairEngine:
                 return edges
             return None
         return None
+
+    ERR_COMBINATORS = ('map_err', 'or_else', 'inspect_err', 'unwrap_or_else', 'ok_or_else', 'is_err_and')
+
+    def _error_path_consumer(self, body, al, s):
+        """If the closure built by statement s is handed (only) to an error-path combinator of Result / Option
+        (`map_err`, `or_else`, `inspect_err`, `unwrap_or_else`): the call blocks that produced the receiver (tuple,
+        possibly empty).  None otherwise."""
+        import valueflow
+        if not s.place.is_local():
+            return None
+        cl = s.place.local
+        uses = flow._collect_uses(body)
+        consumers = []
+        work = [cl]
+        seen = set()
+        while work:
+            l = work.pop()
+            if l in seen:
+                continue
+            seen.add(l)
+            for (ubb, _, node, how) in uses.get(l, []):
+                if how == 'stmt' and node.rv.k == 'use' and node.place.is_local():
+                    work.append(node.place.local)
+                elif how == 'callarg':
+                    consumers.append((ubb, node))
+                elif how == 'drop':
+                    continue
+                elif how == 'stmt':
+                    return None
+        if len(consumers) != 1:
+            return None
+        ubb, t = consumers[0]
+        last = (t.callee or t.resolved or '').rsplit('::', 1)[-1]
+        if last not in self.ERR_COMBINATORS or len(t.args) < 2 or t.args[0].place is None:
+            return None
+        origins = []
+        for leaf in valueflow.sources(body, al, t.args[0].place.local):
+            if leaf[0] == 'call' and (leaf[1].resolved or leaf[1].callee or '') in self.prog.bodies:
+                origins.append(leaf[2])
+        return tuple(sorted(set(origins)))
 
     def _closure_matches(self, q, r, al, s, cr):
         """Does closure resource cr (captured pointer) refer to the parent's resource r?"""
@@ -538,6 +584,12 @@ class PairEngine:
                 src = rv.place if rv.k in ('deref_copy', 'ref') else (rv.ops[0].place if rv.ops else None)
                 if src is None:
                     return False
+                if body.kind == 'closure' and src.local == 1:
+                    # a value moved out of a capture: is the captured local a snapshot in the enclosing body?
+                    if self._capture_is_snapshot(body, src, r):
+                        any_real = True
+                        continue
+                    return False
                 if self._local_is_snapshot(body, al, src.local, r, seen):
                     any_real = True
                     continue
@@ -554,6 +606,41 @@ class PairEngine:
             return False
         return any_real
 
+    def _parent_resource(self, cbody, cr):
+        """(parent body, parent alias info, parent resource) for closure resource cr, or None."""
+        parent = self.prog.bodies.get(cbody.parent)
+        if parent is None:
+            return None
+        pal = self.mod.aliases(parent.q)
+        for blk in parent.blocks:
+            for s_ in blk.stmts:
+                if s_.kind == 'A' and s_.rv.k == 'agg' and s_.rv.raw.get('ak') == 'closure' and s_.rv.raw.get('def') == cbody.q:
+                    for pr in self.R.res.get(parent.q, []):
+                        if self._closure_matches(parent.q, pr, pal, s_, cr):
+                            return parent, pal, pr
+        return None
+
+    def _capture_is_snapshot(self, cbody, place, cr):
+        import valueflow
+        caps = [p_[2:] for p_ in place.proj if isinstance(p_, str) and p_.startswith('.^')]
+        if not caps:
+            return False
+        org = valueflow.capture_origin(self.prog, cbody, caps[0])
+        pr = self._parent_resource(cbody, cr)
+        if org is None or pr is None:
+            return False
+        parent, pal, pres = pr
+        return self._local_is_snapshot(parent, pal, org[1], pres, set())
+
+    def closure_restores(self, cq, cidx):
+        """Does the trace of closure cq (for its resource cidx) contain a restore from a captured snapshot?"""
+        key = (cq, cidx)
+        if key not in self._restoring:
+            if key not in self.trace:
+                self.trace[key] = self._events(cq, cidx)
+            self._restoring[key] = any(e[0] == 'restore' for evs in self.trace[key].values() for e in evs)
+        return self._restoring[key]
+
     def cut_edges(self, q):
         if q in self.cut:
             return self.cut[q]
@@ -568,8 +655,61 @@ class PairEngine:
                 for e_ in (cf.err_edges if which == 'err' else cf.ok_edges):
                     if self._edge_decided_only_by(body, e_, bb):
                         edges.add(e_)
+            if body.kind == 'closure':
+                edges |= self._captured_cut_edges(body, callee, which)
         self.cut[q] = edges
         return edges
+
+    def _captured_cut_edges(self, cbody, callee, which):
+        """The tabled call's result was moved into this closure (`snapshot` captured by `map_err(|e| ..)`) and is
+        tested here: the same edge of a switch on the captured value is cut, provided the captured local is defined
+        solely by the tabled call in the enclosing body."""
+        import valueflow
+        out = set()
+        for blk in cbody.blocks:
+            if blk.cleanup or blk.term.k != 'switch':
+                continue
+            d = blk.term.discr
+            if d.place is None or not d.place.is_local():
+                continue
+            sd = cbody.single_def(d.place.local)
+            if sd is None or sd[1] == 'term' or sd[2].rv.k != 'discr' or sd[2].rv.place is None or sd[2].rv.place.local != 1:
+                continue
+            proj = sd[2].rv.place.proj
+            caps = [p_[2:] for p_ in proj if isinstance(p_, str) and p_.startswith('.^')]
+            if len(caps) != 1 or len(proj) != 1:
+                continue
+            org = valueflow.capture_origin(self.prog, cbody, caps[0])
+            if org is None:
+                continue
+            parent, pl = org
+            # sole definition: the tabled call (through single-definition moves)
+            l = pl
+            ok = False
+            for _ in range(6):
+                defs = parent.defs.get(l, [])
+                if len(defs) != 1:
+                    break
+                (dbb, idx, node) = defs[0]
+                if idx == 'term':
+                    ok = (node.resolved or node.callee) == callee
+                    break
+                if node.rv.k == 'use' and node.rv.ops and node.rv.ops[0].place is not None and node.rv.ops[0].place.is_local():
+                    l = node.rv.ops[0].place.local
+                    continue
+                break
+            if not ok:
+                continue
+            listed = {v: tg for v, tg in blk.term.values}
+            # Option / Result: discriminant 0 = None / Ok, 1 = Some / Err; the table says 'err' for the None / Err side of
+            # the call's result as flow.call_flow classifies it (Option: None = err)
+            ty = cbody.locals[1]
+            none_t = listed.get(0, blk.term.otherwise if 0 not in listed else None)
+            some_t = listed.get(1, blk.term.otherwise if 1 not in listed else None)
+            tgt = none_t if which == 'err' else some_t
+            if tgt is not None:
+                out.add((blk.idx, tgt))
+        return out
 
     @staticmethod
     def _edge_decided_only_by(body, edge, call_bb):
@@ -621,12 +761,12 @@ class PairEngine:
         """Hook: 'call' (use the callee summary as is) or 'call_nob' (ignore its B part)."""
         return 'call'
 
-    def analyse(self, q, ridx, entry_m=0):
+    def analyse(self, q, ridx, entry_m=0, entry_sv=1):
         body = self.prog.bodies[q]
         if (q, ridx) not in self.trace:
             self.trace[(q, ridx)] = self._events(q, ridx)
         ev = self.trace[(q, ridx)]
-        start = frozenset({(entry_m, 0, 1)})
+        start = frozenset({(entry_m, 0, entry_sv)})
         state_in = {0: set(start)}
         work = deque([0])
         out_states = set()
@@ -654,7 +794,7 @@ class PairEngine:
                     cur |= st2
                     if s not in work:
                         work.append(s)
-        if entry_m == 0:
+        if entry_m == 0 and entry_sv == 1:
             self.block_in[(q, ridx)] = state_in
         return frozenset((m, b) for (m, b, _) in out_states)
 
@@ -674,6 +814,16 @@ class PairEngine:
             return {((0 if sv else 1), b, sv) for (m, b, sv) in st}
         if k == 'unsnap':
             return {(m, b, 0) for (m, b, sv) in st}
+        if k == 'call_if_fail':
+            # no result correlation in this engine: the closure may or may not have run
+            return set(st) | self._apply(st, ('call',) + tuple(e[1:4]))
+        if k == 'call' and self.prog.bodies[e[1]].kind == 'closure' and self.closure_restores(e[1], e[2]):
+            # a closure that restores from a captured snapshot: run it on the caller's state
+            out = set()
+            for (m, b, sv) in st:
+                for (m2, b2) in self.analyse(e[1], e[2], entry_m=m, entry_sv=sv):
+                    out.add((m2, b | b2, sv))
+            return out
         if k == 'call':
             summ = self.summary.get((e[1], e[2]), frozenset())
             if self.b_after_m:
